@@ -15,8 +15,57 @@ TOL = F(1, 10 ** 9)
 # ------------------------------------------------------------------------------------------
 # grids and motions
 # ------------------------------------------------------------------------------------------
+#: 2-D grids with NON-CONVEX cells: (node coordinates, cells as counter-clockwise node loops)
+POLY_TEMPLATES = {
+    "arrow": ([(0, 0), (0.5, 0.5), (1, 0), (0.5, 1)], [[0, 1, 2, 3]]),
+    "arrow_ext": ([(0, 0), (0.5, 0.75), (1, 0), (0.5, 1)], [[0, 1, 2, 3]]),     # centroid outside
+    "three": ([(0, 0), (0.5, 0.5), (1, 0), (0.5, 1), (0.5, -0.5), (0.5, -1)],
+              [[0, 1, 2, 3], [0, 4, 2, 1], [0, 5, 2, 4]]),                        # 2 concave + 1 convex
+    "ell": ([(0, 0), (2, 0), (2, 1), (1, 1), (1, 2), (0, 2), (2, 2)],
+            [[0, 1, 2, 3, 4, 5], [3, 2, 6, 4]]),                                   # L-shape + square
+    "pent": ([(0, 0), (2, 0), (2, 2), (1, 1), (0, 2)], [[0, 1, 2, 3, 4], [2, 4, 3]]),
+    "notch": ([(0, 0), (3, 0), (3, 2), (2, 2), (1.5, 0.5), (1, 2), (0, 2)],
+              [[0, 1, 2, 3, 4, 5, 6], [3, 5, 4]]),                                 # heptagon + triangle
+}
+
+
+def poly_nodes(case):
+    nodes, cells = POLY_TEMPLATES[case["template"]]
+    sx, sy = case["scale2"]
+    return [(F(x) * F(sx), F(y) * F(sy)) for x, y in nodes], cells
+
+
+def build_poly(case):
+    """pp.Grid from node loops; clockwise = every loop reversed (consistent orientation, the
+    loop normal points to -z); some faces stored with reversed node order (sign -1)."""
+    nodes, cells = poly_nodes(case)
+    if case["clockwise"]:
+        cells = [c[::-1] for c in cells]
+    faces, index = [], {}
+    rows, cols, vals = [], [], []
+    flip = case.get("flip_faces", 0)
+    for ci, loop in enumerate(cells):
+        for a, b in zip(loop, loop[1:] + loop[:1]):
+            key = (min(a, b), max(a, b))
+            if key not in index:
+                index[key] = len(faces)
+                faces.append((b, a) if (flip >> len(faces)) & 1 else (a, b))
+            f = index[key]
+            rows.append(f)
+            cols.append(ci)
+            vals.append(1 if faces[f] == (a, b) else -1)
+    fn = sps.csc_matrix((np.ones(2 * len(faces)), np.array(faces).ravel(),
+                         np.arange(0, 2 * len(faces) + 1, 2)), shape=(len(nodes), len(faces)))
+    cf = sps.csc_matrix((np.array(vals, dtype=float), (np.array(rows), np.array(cols))),
+                        shape=(len(faces), len(cells)))
+    xyz = np.array([[float(x), float(y), 0.0] for x, y in nodes]).T
+    return pp.Grid(2, xyz, fn, cf, "nonconvex_" + case["template"])
+
+
 def build(case):
     k = case["kind"]
+    if k == "poly":
+        return build_poly(case)
     if k == "cart":
         g = pp.CartGrid(np.array(case["dims"]))
     elif k == "tensor":
@@ -134,8 +183,13 @@ class C20(Prop):
                  "language of geometry formulas; induction over edge lists) + vm_compute execution "
                  "correspondence in Q with exact rational rotations + exact-fractions oracle")
     rule = ("random grids: CartGrid / TensorGrid in 1-3-D, StructuredTriangleGrid, "
-            "StructuredTetrahedralGrid; dyadic node perturbations (interior / all nodes; 3-D: "
-            "tetrahedral grids only); 2-D stream with reversed faces (fallback + plane fitting); "
+            "StructuredTetrahedralGrid; 20%: 2-D grids with NON-CONVEX cells built via pp.Grid (arrow, "
+            "arrow with external centroid, two concave + one convex, L + square, concave pentagon + "
+            "triangle, notched heptagon + triangle; both loop orientations, random faces stored "
+            "reversed, anisotropic dyadic scaling), checked against the exact shoelace area and "
+            "centroid before and after the motion; every grid is also moved IN PLACE after its geometry "
+            "was computed and recomputed (history) and compared with a fresh grid; dyadic node perturbations (interior / all nodes; 3-D: "
+            "tetrahedral grids only); quarter/half turns about coordinate axes (17%); 2-D stream with reversed faces (fallback + plane fitting); "
             "exact rational rotation from an integer quaternion: entries in [-4,4] (incl. identity and "
             "axis-aligned quarter turns), SMALL angles 1e-6..1e-2 rad about arbitrary axes (N, a, b, c "
             "with N up to 4e6), nearly half turns (1, N a, N b, N c); translation with small rational "
@@ -159,7 +213,14 @@ class C20(Prop):
         sp = [0.5, 1.0, 1.0, 1.5, 2.0]
         for i in range(n):
             r = rng.random()
-            if r < 0.10:
+            if rng.random() < 0.2:
+                # non-convex cells, both loop orientations, some faces stored reversed
+                case = {"kind": "poly", "template": rng.choice(sorted(POLY_TEMPLATES)),
+                        "scale2": [rng.choice([0.5, 1.0, 1.0, 1.5, 2.0]), rng.choice([0.5, 1.0, 1.0, 3.0])],
+                        "clockwise": rng.random() < 0.5,
+                        "flip_faces": rng.randrange(1024) if rng.random() < 0.5 else 0,
+                        "dims": [1, 1]}
+            elif r < 0.10:
                 case = {"kind": "cart", "dims": [rng.randint(1, 3 * m)]}
             elif r < 0.20:
                 xs = [float(rng.randint(-4, 4))]
@@ -192,18 +253,23 @@ class C20(Prop):
                 case = {"kind": "tet", "dims": [rng.randint(1, 2), rng.randint(1, 2), 1]}
             nd = len(case.get("dims", case.get("coords", [])))
             case["perturb"] = rng.choice(["none", "interior", "all", "all"])
+            if case["kind"] == "poly":
+                case["perturb"] = "none"
             if nd == 3 and case["kind"] != "tet":
                 case["perturb"] = "none"
             case["scale"] = 1.0 / 64
             case["pert"] = [rng.randint(-7, 7) for _ in range(24)]
             case["swap_faces"] = ([rng.randint(0, 10 ** 6) for _ in range(rng.randint(1, 2))]
-                                  if (nd == 2 and rng.random() < 0.25) else [])
+                                  if (nd == 2 and case["kind"] != "poly" and rng.random() < 0.25)
+                                  else [])
             rq = rng.random()
-            if rq < 0.06:
+            if rq < 0.05:
                 q = [1, 0, 0, 0]
-            elif rq < 0.16:
-                q = rng.choice([[1, 1, 0, 0], [1, 0, 1, 0], [1, 0, 0, 1], [0, 1, 0, 0], [0, 0, 1, 1],
-                                [1, 1, 1, 1], [1, -1, 0, 0], [0, 1, 1, 0]])
+            elif rq < 0.22:
+                # quarter and half turns about the coordinate axes and diagonals (upside-down ...)
+                q = rng.choice([[1, 1, 0, 0], [1, 0, 1, 0], [1, 0, 0, 1], [0, 1, 0, 0], [0, 0, 1, 0],
+                                [0, 0, 0, 1], [0, 0, 1, 1], [1, 1, 1, 1], [1, -1, 0, 0], [1, 0, -1, 0],
+                                [1, 0, 0, -1], [0, 1, 1, 0], [0, 1, 0, 1]])
             elif rq < 0.40:
                 # SMALL angles (about 2|v|/N rad, 1e-6 ... 1e-2) about an arbitrary axis
                 v = [0, 0, 0]
@@ -244,20 +310,24 @@ class C20(Prop):
         t = [F(a, b) for a, b in case["shift"]]
         N = g.nodes.T.tolist()
         N2 = [[float(x) for x in apply(R, t, [F(c) for c in p])] for p in N]
-        g2 = g.copy()
+        g2 = build(case)                       # a FRESH grid at the moved position
         g2.nodes = np.array(N2).T.copy()
         G = geometry(g)
         G2 = geometry(g2)
+        # history: the grid whose geometry was computed is moved IN PLACE and recomputed
+        g.nodes[:, :] = np.array(N2).T
+        G2h = geometry(g)
         cf = sps.coo_matrix(g.cell_faces)
         out = {
             "dim": int(g.dim), "nc": int(g.num_cells), "nf": int(g.num_faces),
-            "N": N, "N2": N2, "G": G, "G2": G2,
+            "N": N, "N2": N2, "G": G, "G2": G2, "G2_inplace": G2h,
             "fn_indices": [int(x) for x in g.face_nodes.indices],
             "fn_indptr": [int(x) for x in g.face_nodes.indptr],
             "cf": [[int(r), int(c), int(v)] for r, c, v in zip(cf.row, cf.col, cf.data)],
             "cf_indices": [int(x) for x in g.cell_faces.indices],
         }
-        key = f"dim{g.dim}" + ("_fallback" if G["fallback"] or G2["fallback"] else "") + \
+        key = ("poly_" + ("cw" if case["clockwise"] else "ccw") if case["kind"] == "poly" else
+               f"dim{g.dim}") + ("_fallback" if G["fallback"] or G2["fallback"] else "") + \
               ("" if case["perturb"] == "none" else "_pert")
         self.stats[key] = self.stats.get(key, 0) + 1
         return out
@@ -287,6 +357,38 @@ class C20(Prop):
             if not all(close(x, y) for x, y in zip(p2, e)):
                 return (f"face normal {i}: after the motion {p2}, but the rotated normal is "
                         f"{[float(x) for x in e]}")
+        # history: the same grid object moved in place and recomputed = a fresh grid there
+        Gh = res.get("G2_inplace")
+        if Gh is not None:
+            for name in ("area", "vol"):
+                for i, (a, b) in enumerate(zip(G2[name], Gh[name])):
+                    if not close(b, a):
+                        return (f"history: {name} {i} of the grid moved in place and recomputed is "
+                                f"{b!r}, a fresh grid at the same position gives {a!r}")
+            for name in ("fc", "cc", "fn"):
+                for i, (p, q) in enumerate(zip(G2[name], Gh[name])):
+                    if not all(close(y, x) for x, y in zip(p, q)):
+                        return (f"history: {name} {i} of the grid moved in place and recomputed is "
+                                f"{q}, a fresh grid at the same position gives {p}")
+        # non-convex cells: exact area and centroid of every cell by the shoelace formula
+        if case["kind"] == "poly":
+            nodes, cells = poly_nodes(case)
+            for c, loop in enumerate(cells):
+                pts = [nodes[i] for i in loop]
+                a2 = sum(p[0] * q[1] - q[0] * p[1] for p, q in zip(pts, pts[1:] + pts[:1]))
+                cx = sum((p[0] + q[0]) * (p[0] * q[1] - q[0] * p[1])
+                         for p, q in zip(pts, pts[1:] + pts[:1])) / (3 * a2)
+                cy = sum((p[1] + q[1]) * (p[0] * q[1] - q[0] * p[1])
+                         for p, q in zip(pts, pts[1:] + pts[:1])) / (3 * a2)
+                area = abs(a2) / 2
+                cen = [cx, cy, F(0)]
+                for nm, GG, ce in (("", G, cen), (" after the motion", G2, apply(R, t, cen))):
+                    if not close(GG["vol"][c], area):
+                        return (f"cell {c}{nm}: volume {GG['vol'][c]!r}, the polygon has area "
+                                f"{float(area)!r} (shoelace)")
+                    if not all(close(x, y) for x, y in zip(GG["cc"][c], ce)):
+                        return (f"cell {c}{nm}: centre {GG['cc'][c]}, the polygon's centroid is "
+                                f"{[float(x) for x in ce]}")
         return None
 
     # ------------------------------------------------------------------ Coq tie
